@@ -165,7 +165,7 @@ func RunC05(ctx *core.Ctx, rep *core.Report) {
 	rep.Rule = "same (workload, configuration) stream as C01; the bytes delivered to the sink are walked by the reference decoder (written from the spec, no shared code) and every record's grammar position, length, offset, size, time field and index entry is recomputed; the decoded content must equal the call log. " +
 		"distinct_nontrivial counts distinct (shape, configuration) pairs whose file carries at least one chunk/attachment/metadata index record."
 	rep.Assumptions = []string{"reference decoder implements website/docs/spec/index.md faithfully (it reproduces all 416 conformance binaries, see C17)", "zstd/lz4 codecs are trusted", "cross-record MUSTs disabled by the caller through options are not held against the writer"}
-	n, cross := writeFamilyCases(ctx, 3000, 300000)
+	n, cross := writeFamilyCases(ctx, 3000, 100000)
 	core.Parallel(ctx, rep, n+cross, func(i int) {
 		rep.Eval(1)
 		checkC05Case(caseAt(ctx, "write", i, n), rep)
@@ -176,7 +176,7 @@ func RunC06(ctx *core.Ctx, rep *core.Report) {
 	rep.Rule = "same (workload, configuration) stream as C01; data_section_crc, summary_crc, every chunk's uncompressed_crc and every attachment crc are recomputed with hash/crc32 over the byte ranges the spec defines; with IncludeCRC=false the first three must be zero. " +
 		"distinct_nontrivial counts distinct (shape, configuration) pairs with at least one chunk or attachment."
 	rep.Assumptions = []string{"hash/crc32 is correct", "the reference decoder locates records correctly"}
-	n, cross := writeFamilyCases(ctx, 3000, 300000)
+	n, cross := writeFamilyCases(ctx, 3000, 100000)
 	core.Parallel(ctx, rep, n+cross, func(i int) {
 		rep.Eval(1)
 		checkC06Case(caseAt(ctx, "write", i, n), rep)
@@ -482,7 +482,7 @@ func RunC08(ctx *core.Ctx, rep *core.Report) {
 		"Writer.Statistics after Close, the statistics record decoded by the reference decoder and Reader.Info are compared with aggregates recomputed from the call log; Info's listings with the summary groups the reference decoder sees. " +
 		"distinct_nontrivial counts distinct (shape, configuration) pairs with at least one message."
 	rep.Assumptions = []string{"call log is ground truth; chunk count and summary groups come from the reference decoder"}
-	n, cross := writeFamilyCases(ctx, 2500, 200000)
+	n, cross := writeFamilyCases(ctx, 2500, 80000)
 	t := ctx.Pick(1500, 50000)
 	core.Parallel(ctx, rep, n+cross+t, func(i int) {
 		rep.Eval(1)
